@@ -12,8 +12,9 @@
 //!
 //! Observed per coarse step: outcome (site / finished=1 / blocked=2 / skipped=3), the blocked
 //! threads that got unblocked, the occupancy counters.  "Blocked" is decided from the OS: the
-//! thread has not reached a site and sleeps (state S in /proc/self/task/<tid>/stat) on several
-//! consecutive polls; a time limit is only the fallback.
+//! thread has not reached a site and sleeps in futex(2) on a word that belongs neither to the
+//! scheduler nor to the harness (/proc/self/task/<tid>/syscall) on several consecutive polls;
+//! a time limit is only the fallback.
 //!
 //! replay line:  progs=W7.d0.W7.d0|W7.d0.W7.d0 sched=0,0,0,0,0,1,1,1  [cls=...ignored]
 use std::collections::BTreeMap;
@@ -86,13 +87,14 @@ fn os_tid() -> i64 {
         .and_then(|p| p.file_name().and_then(|f| f.to_str().map(|s| s.to_string())))
         .and_then(|s| s.parse().ok()).unwrap_or(-1)
 }
-/// scheduling state letter of an OS thread of this process ('R', 'S', 'D', ...)
-fn os_state(tid: i64) -> char {
-    if tid < 0 { return '?'; }
-    match std::fs::read_to_string(format!("/proc/self/task/{}/stat", tid)) {
-        Ok(s) => match s.rfind(')') { Some(i) => s[i + 1..].trim_start().chars().next().unwrap_or('?'), None => '?' },
-        Err(_) => '?',
-    }
+/// If OS thread `tid` of this process sleeps in futex(2): the address it waits on
+/// (/proc/self/task/<tid>/syscall = "202 <uaddr> ..."); None if it runs or sleeps elsewhere.
+fn futex_wait_addr(tid: i64) -> Option<usize> {
+    if tid < 0 { return None; }
+    let s = std::fs::read_to_string(format!("/proc/self/task/{}/syscall", tid)).ok()?;
+    let mut it = s.split_whitespace();
+    if it.next()? != "202" { return None; }
+    usize::from_str_radix(it.next()?.trim_start_matches("0x"), 16).ok()
 }
 
 fn rel<'a>(shr: &Shared, pg: &mut Vec<(i64, bool, PG<'a>)>, i: usize) {
@@ -145,24 +147,29 @@ struct StepObs { t: usize, out: i64, woke: Vec<(usize, i64)>, occ: Vec<(i64, i64
 enum Fin { Complete { acq: u64, cont: u64, tacq: u64, blocked: Vec<(usize, i64, bool)> }, Trunc }
 struct Observed { steps: Vec<StepObs>, fin: Fin, sched_run: Vec<usize> }
 
-struct Runner { s: Arc<Scheduler>, sh: Arc<Shared>, blocked: Vec<bool>, n: usize }
+struct Runner { s: Arc<Scheduler>, sh: Arc<Shared>, blocked: Vec<bool>, n: usize, own: Vec<(usize, usize)> }
 
-const POLL: Duration = Duration::from_micros(150);
-const NEED_SLEEPING: u32 = 6;
+const POLL: Duration = Duration::from_micros(100);
+const NEED_SLEEPING: u32 = 5;
 
 impl Runner {
     /// has thread `id` (currently Running for the scheduler) arrived, or is it asleep in the implementation?
     fn wait_arrival(&self, id: usize) -> Option<StepOutcome> {
         let t0 = Instant::now();
         let mut asleep = 0u32;
+        let mut last: Option<usize> = None;
         loop {
             match self.s.state(id) {
                 TState::AtSite(x) => return Some(StepOutcome::Reached(x)),
                 TState::Finished => return Some(StepOutcome::Finished),
                 _ => {}
             }
-            let st = os_state(self.sh.tids[id].load(Ordering::SeqCst));
-            if st == 'S' { asleep += 1 } else { asleep = 0 }
+            // asleep in the implementation = waiting on a futex that is neither the scheduler's
+            // mutex/condvar nor the harness' own occupancy mutex (parking_lot parks on a per-thread word)
+            let a = futex_wait_addr(self.sh.tids[id].load(Ordering::SeqCst));
+            let foreign = match a { Some(x) => !self.own.iter().any(|(lo, hi)| x >= *lo && x < *hi), None => false };
+            if foreign && (asleep == 0 || a == last) { asleep += 1 } else if foreign { asleep = 1 } else { asleep = 0 }
+            last = a;
             if asleep >= NEED_SLEEPING || t0.elapsed() > Duration::from_millis(1500) {
                 return match self.s.state(id) {
                     TState::AtSite(x) => Some(StepOutcome::Reached(x)),
@@ -209,7 +216,7 @@ fn run_case(progs: &[Vec<Op>], sched: &[usize]) -> Observed {
         cur: (0..n).map(|_| (AtomicI64::new(0), AtomicI64::new(0))).collect(),
     });
     let mut s = Scheduler::new(n);
-    if let Some(m) = Arc::get_mut(&mut s) { m.block_timeout = Duration::from_millis(3); }
+    if let Some(m) = Arc::get_mut(&mut s) { m.block_timeout = Duration::from_millis(1); }
     s.install();
     let mut hs = vec![];
     for (id, prog) in progs.iter().enumerate() {
@@ -217,7 +224,11 @@ fn run_case(progs: &[Vec<Op>], sched: &[usize]) -> Observed {
         hs.push(s.spawn(id, move || thread_body(id, p, sh2)));
     }
     s.wait_all_started();
-    let mut r = Runner { s: Arc::clone(&s), sh: Arc::clone(&sh), blocked: vec![false; n], n };
+    let own = vec![
+        (Arc::as_ptr(&s) as usize, Arc::as_ptr(&s) as usize + std::mem::size_of::<Scheduler>()),
+        (Arc::as_ptr(&sh) as usize, Arc::as_ptr(&sh) as usize + std::mem::size_of::<Shared>()),
+    ];
+    let mut r = Runner { s: Arc::clone(&s), sh: Arc::clone(&sh), blocked: vec![false; n], n, own };
     let mut steps = vec![];
     let mut sched_run = vec![];
     let mut trunc = false;
@@ -475,84 +486,134 @@ fn main() {
     match a.mode.as_str() {
         "gen" => gen(&a),
         "search" => search(&a),
+        "worker" => worker(&a),
         _ => { eprintln!("c36: unknown mode"); std::process::exit(2); }
     }
 }
 
+/// flags of one observed case, as one tab-separated result line (worker -> parent)
+fn result_line(kind: &str, progs: &[Vec<Op>], sched: &[usize], o: &Observed) -> String {
+    let mut parked = vec![false; progs.len()];
+    let mut hit204 = false;
+    // a thread parked at 204 while another thread moved: the window of the property's why_tests_cant
+    for s in &o.steps {
+        if s.out != 3 && s.out != 2 && parked.iter().enumerate().any(|(u, p)| *p && u != s.t) { hit204 = true; }
+        if s.out != 3 && s.t < parked.len() { parked[s.t] = s.out == 204; }
+    }
+    let dead = if let Fin::Complete { blocked, .. } = &o.fin { !blocked.is_empty() } else { false };
+    let flags = [
+        o.steps.iter().any(|s| s.out == 2), o.steps.iter().any(|s| !s.woke.is_empty()), occ_violation(o),
+        matches!(o.fin, Fin::Trunc), hit204, dead, stale204(progs, o), preempted_inside_call(o), unjustified_block(o),
+    ];
+    let f: String = flags.iter().map(|b| if *b { '1' } else { '0' }).collect();
+    format!("{}\t{}\t{}\t{}", kind, replay_line(progs, sched), f, case_term(progs, o))
+}
+
+/// `worker --lines FILE --out FILE`: FILE holds `kind<TAB>replay line` per case
+fn worker(a: &Args) {
+    let inp = std::fs::read_to_string(a.lines.as_ref().expect("--lines")).unwrap_or_default();
+    let mut out = String::new();
+    for l in inp.lines() {
+        let mut it = l.splitn(2, '\t');
+        let kind = it.next().unwrap_or("");
+        let line = it.next().unwrap_or("");
+        if let Some((progs, sched)) = parse_line(line) {
+            let o = run_case(&progs, &sched);
+            out.push_str(&result_line(kind, &progs, &sched, &o));
+            out.push('\n');
+        }
+    }
+    std::fs::write(&a.out, out).expect("worker output");
+}
+
+/// run the cases in `jobs` child processes (one scheduler per process); results in input order
+fn run_parallel(dir: &std::path::Path, cases: &[(Vec<Vec<Op>>, Vec<usize>, &'static str)], jobs: usize) -> Vec<Vec<String>> {
+    std::fs::create_dir_all(dir).expect("work dir");
+    let jobs = jobs.max(1).min(cases.len().max(1));
+    let exe = std::env::current_exe().expect("current_exe");
+    let mut children = vec![];
+    for j in 0..jobs {
+        let mut txt = String::new();
+        for (i, (p, sch, kind)) in cases.iter().enumerate() { if i % jobs == j { txt.push_str(&format!("{}\t{}\n", kind, replay_line(p, sch))); } }
+        let inp = dir.join(format!("work_{}.txt", j));
+        let outp = dir.join(format!("res_{}.tsv", j));
+        std::fs::write(&inp, txt).expect("work file");
+        let ch = std::process::Command::new(&exe).arg("worker").arg("--lines").arg(&inp).arg("--out").arg(&outp).spawn().expect("spawn worker");
+        children.push((ch, outp));
+    }
+    let mut per_job: Vec<std::collections::VecDeque<Vec<String>>> = vec![];
+    for (mut ch, outp) in children {
+        let st = ch.wait().expect("wait worker");
+        if !st.success() { eprintln!("c36: worker failed: {:?}", st); std::process::exit(3); }
+        let txt = std::fs::read_to_string(&outp).unwrap_or_default();
+        per_job.push(txt.lines().map(|l| l.splitn(4, '\t').map(|x| x.to_string()).collect::<Vec<_>>()).collect());
+    }
+    let mut res = vec![];
+    for i in 0..cases.len() { if let Some(r) = per_job[i % jobs].pop_front() { res.push(r); } }
+    res
+}
+
+fn jobs() -> usize { std::env::var("C36_JOBS").ok().and_then(|s| s.parse().ok()).unwrap_or(6) }
+
 fn gen(a: &Args) {
     let mut rng = Rng::new(a.seed);
-    let mut wr = CaseWriter::new(&a.out, "C36", "Corr.C36", 400);
+    let mut wr = CaseWriter::new(&a.out, "C36", "Corr.C36", 100);
     let cases: Vec<(Vec<Vec<Op>>, Vec<usize>, &'static str)> = match a.replay_lines() {
         Some(ls) => ls.iter().filter_map(|l| parse_line(l)).map(|(p, s)| (p, s, "replay")).collect(),
         None => gen_cases(a, &mut rng),
     };
     let t0 = Instant::now();
-    let (mut n_blocked, mut n_woke, mut n_double, mut n_trunc, mut n_204, mut n_dead, mut n_stale) = (0u64, 0u64, 0u64, 0u64, 0u64, 0u64, 0u64);
-    for (progs, sched, kind) in cases {
-        let o = run_case(&progs, &sched);
-        if o.steps.iter().any(|s| s.out == 2) { n_blocked += 1; }
-        if o.steps.iter().any(|s| !s.woke.is_empty()) { n_woke += 1; }
-        if occ_violation(&o) { n_double += 1; }
-        if matches!(o.fin, Fin::Trunc) { n_trunc += 1; }
-        if let Fin::Complete { blocked, .. } = &o.fin { if !blocked.is_empty() { n_dead += 1; } }
-        if stale204(&progs, &o) { n_stale += 1; }
-        {
-            // a thread parked at 204 while another thread moved: the window of the property's why_tests_cant
-            let mut parked = vec![false; progs.len()];
-            let mut hit = false;
-            for s in &o.steps {
-                if s.out != 3 && s.out != 2 && parked.iter().enumerate().any(|(u, p)| *p && u != s.t) { hit = true; }
-                if s.out != 3 && s.t < parked.len() { parked[s.t] = s.out == 204; }
-            }
-            if hit { n_204 += 1; }
-        }
-        let nontrivial = preempted_inside_call(&o);
+    let res = run_parallel(&a.out.join("work"), &cases, jobs());
+    let names = ["obs_cases_with_a_blocked_step", "obs_cases_with_a_wakeup", "obs_cases_two_holders_seen", "obs_cases_truncated_two_blocked",
+        "obs_cases_preempted_at_204", "obs_cases_ending_deadlocked", "obs_cases_stale_cleanup_signature"];
+    let mut counts = [0u64; 7];
+    for r in &res {
+        if r.len() < 4 { continue; }
+        let f: Vec<bool> = r[2].chars().map(|c| c == '1').collect();
+        for i in 0..7 { if f.get(i).copied().unwrap_or(false) { counts[i] += 1; } }
         // the replay line names the requested schedule; the drain that the harness appends is deterministic
-        wr.push(case_term(&progs, &o), replay_line(&progs, &sched), nontrivial, kind);
-        let _ = &o.sched_run;
+        wr.push(r[3].clone(), r[1].clone(), f.get(7).copied().unwrap_or(false), &r[0]);
     }
-    wr.count("obs_cases_with_a_blocked_step", n_blocked);
-    wr.count("obs_cases_with_a_wakeup", n_woke);
-    wr.count("obs_cases_two_holders_seen", n_double);
-    wr.count("obs_cases_truncated_two_blocked", n_trunc);
-    wr.count("obs_cases_preempted_at_204", n_204);
-    wr.count("obs_cases_ending_deadlocked", n_dead);
-    wr.count("obs_cases_stale_cleanup_signature", n_stale);
-    wr.finish(&[("harness_run_ms".to_string(), format!("{}", t0.elapsed().as_millis()))]);
+    for i in 0..7 { wr.count(names[i], counts[i]); }
+    let _ = std::fs::remove_dir_all(a.out.join("work"));
+    wr.finish(&[("harness_run_ms".to_string(), format!("{}", t0.elapsed().as_millis())), ("worker_processes".to_string(), format!("{}", jobs()))]);
 }
 
 /// Oracle only: occupancy exclusion at every step, and no unjustified blocking at the end.
 fn search(a: &Args) {
     let mut rng = Rng::new(a.seed ^ 0xC36);
-    let mut fails: Vec<String> = vec![];
-    let mut tried = 0u64;
-    let budget = a.budget.min(40_000);
-    let mut check = |progs: &[Vec<Op>], sched: &[usize], fails: &mut Vec<String>| {
-        let o = run_case(progs, sched);
-        if occ_violation(&o) || unjustified_block(&o) {
-            if fails.len() < 40 {
-                let cls = if stale204(progs, &o) { " cls=stale204" } else { "" };
-                fails.push(format!("{}{}", replay_line(progs, sched), cls));
-            }
-        }
-    };
+    let budget = a.budget.min(40_000) as usize;
+    let mut cases: Vec<(Vec<Vec<Op>>, Vec<usize>, &'static str)> = vec![];
     let ww = vec![w(7), Op::Rel(0), w(7), Op::Rel(0)];
     'outer: for aa in 0..=12 { for bb in 0..=12 { for cc in 0..=6 {
-        check(&[ww.clone(), ww.clone()], &block_schedule(&[(0, aa), (1, bb), (0, cc)]), &mut fails);
-        tried += 1;
-        if tried >= budget { break 'outer; }
+        cases.push((vec![ww.clone(), ww.clone()], block_schedule(&[(0, aa), (1, bb), (0, cc)]), "s"));
+        if cases.len() >= budget { break 'outer; }
     } } }
-    while tried < budget {
+    while cases.len() < budget {
         let n = 2 + rng.below(2) as usize;
         let pages: &[i64] = if rng.chance(2, 3) { &[7] } else { &[7, 8] };
         let progs: Vec<Vec<Op>> = (0..n).map(|_| { let l = 2 + rng.below(6) as usize; random_prog(&mut rng, pages, l, false) }).collect();
         let len = 8 + rng.below(30) as usize;
         let stick = 1 + rng.below(6);
         let sched = random_schedule(&mut rng, n, len, stick);
-        check(&progs, &sched, &mut fails);
-        tried += 1;
+        cases.push((progs, sched, "s"));
     }
-    let mut out = format!("tried={}\n", tried);
-    for f in &fails { out.push_str("FAIL "); out.push_str(f); out.push('\n'); }
+    let dir = a.out.with_extension("work");
+    let res = run_parallel(&dir, &cases, jobs());
+    let _ = std::fs::remove_dir_all(&dir);
+    let mut out = format!("tried={}\n", res.len());
+    let mut nf = 0;
+    for r in &res {
+        if r.len() < 4 { continue; }
+        let f: Vec<bool> = r[2].chars().map(|c| c == '1').collect();
+        // occupancy exclusion violated at some step, or a thread left blocked without a conflicting holder
+        if f.get(2).copied().unwrap_or(false) || f.get(8).copied().unwrap_or(false) {
+            if nf < 40 {
+                let cls = if f.get(6).copied().unwrap_or(false) { " cls=stale204" } else { "" };
+                out.push_str(&format!("FAIL {}{}\n", r[1], cls));
+            }
+            nf += 1;
+        }
+    }
     std::fs::write(&a.out, out).expect("write search output");
 }
